@@ -120,6 +120,24 @@ func NewMuxer(streamName string, config *MuxerConfig, observer IMuxerObserver) *
 func (m *Muxer) Start() {
 	Log.Infof("[%s] start hls muxer.", m.UniqueKey)
 	m.ensureDir()
+	m.resumeMediaSeq()
+}
+
+// resumeMediaSeq
+//
+// 同名的流再次输入时，上一次的直播m3u8文件可能还在（播放端可能还在轮询它）。
+// 新写入的m3u8的 EXT-X-MEDIA-SEQUENCE 需要接着上一次的往后编号，不能回退到0。
+func (m *Muxer) resumeMediaSeq() {
+	content, err := fslCtx.ReadFile(m.playlistFilename)
+	if err != nil {
+		return
+	}
+	nextSeq, err := parseM3u8NextMediaSeq(content)
+	if err != nil {
+		Log.Warnf("[%s] parse old live m3u8 failed. err=%+v", m.UniqueKey, err)
+		return
+	}
+	m.frag = nextSeq
 }
 
 func (m *Muxer) Dispose() {
